@@ -23,12 +23,55 @@ pub(crate) fn small_arena(table: usize) -> Arena {
 /// object, and every access through a slot number read back from the id table is a symbolic-offset
 /// access into it, so its size is a first-order cost
 pub(crate) fn small_arena_cap(table: usize, cap: usize) -> Arena {
+    // every table cell is written by its own straight-line store (no loop: the harness-wide unwind
+    // bound is smaller than the table): a cell that was only zeroed by the allocator or filled by memcpy
+    // (`vec![0; n]` -> calloc) is not a constant for CBMC's symbolic execution, so a lookup of an
+    // ABSENT id would also walk the "present" arm with a symbolic slot number
+    let mut ids: Vec<usize> = Vec::with_capacity(table);
+    match table {
+        1 => ids.push(0),
+        2 => {
+            ids.push(0);
+            ids.push(0);
+        }
+        8 => push8(&mut ids),
+        16 => {
+            push8(&mut ids);
+            push8(&mut ids);
+        }
+        128 => {
+            push64(&mut ids);
+            push64(&mut ids);
+        }
+        _ => panic!("VERIF: unsupported stub table size"),
+    }
     let mut s = Arena {
         terms: Vec::with_capacity(cap),
-        ids: vec![0; table],
+        ids,
     };
     s.terms.push(HpoTermInternal::default());
     s
+}
+
+fn push8(v: &mut Vec<usize>) {
+    v.push(0);
+    v.push(0);
+    v.push(0);
+    v.push(0);
+    v.push(0);
+    v.push(0);
+    v.push(0);
+    v.push(0);
+}
+fn push64(v: &mut Vec<usize>) {
+    push8(v);
+    push8(v);
+    push8(v);
+    push8(v);
+    push8(v);
+    push8(v);
+    push8(v);
+    push8(v);
 }
 
 fn named(id: u32, name: &str) -> HpoTermInternal {
